@@ -118,9 +118,9 @@ PROPS = {
     },
     "C14": {
         "lean": ["PnaVerif.Props.Consts", "PnaVerif.Props.C14", "PnaVerif.Props.C14Layout"],
-        "families": ["roundtrip", "split", "edit", "history", "concat"],
+        "families": ["roundtrip", "split", "edit", "history", "concat", "cli-tree"],
         "cli": True,
-        "ops": {"roundtrip": ["archive.read.stream"], "split": ["split.archive", "multipart.read"], "edit": [], "history": [], "concat": ["concat"]},
+        "ops": {"roundtrip": ["archive.read.stream"], "split": ["split.archive", "multipart.read"], "edit": [], "history": [], "concat": ["concat"], "cli-tree": []},
         "trusted": COMMON_TRUST + CRYPTO_TRUST + ["harness/src/refdec.rs — the independent reader (primitive crates only) is itself unverified test code"],
         "text": "writer output tokenises into the expected chunk sequence and the strict decoder returns the entries written (proved); every archive/part file produced by the C01/C04/C10/C11 families is decoded by an independent primitive-crate reader",
     },
